@@ -12,7 +12,7 @@ From Coq Require Import List ZArith NArith Bool.
 From BBS Require Import Common.Sx Buffer.Source Buffer.Validate Buffer.Convert Buffer.ErrHandler
   Buffer.StreamProofs Buffer.ValidateProofs Buffer.ErrHandlerProofs Buffer.ClosedOnceProofs
   Buffer.ErrHandlerStackProofs Buffer.StackRuleProofs Buffer.ValidateReaderProofs Buffer.ConvertProofs
-  Buffer.EHFullCarry Buffer.EHFullReader Buffer.EHFullMethods Buffer.EHFullStack Buffer.EHFullPrefix Buffer.EHFullExact Buffer.EHFullStackExact Buffer.EHFullMon Run.R09 Run.R16 Run.R16Proofs.
+  Buffer.EHFullCarry Buffer.EHFullReader Buffer.EHFullMethods Buffer.EHFullStack Buffer.EHFullPrefix Buffer.EHFullExact Buffer.EHFullStackExact Buffer.EHFullStacking Buffer.EHFullMon Run.R09 Run.R16 Run.R16Proofs.
 Import ListNotations.
 Open Scope N_scope.
 
@@ -206,6 +206,30 @@ Theorem stack_reader_stream_is_the_level_wise_specification : forall fuel b w ou
     length offss = length (w_act w).
 Proof. exact stack_reader_stream_is_stitch_stack. Qed.
 Print Assumptions stack_reader_stream_is_the_level_wise_specification.
+
+(** ... and the WHOLE run of a stack, from the original buffer [b0] and the
+    scripts [anss] of all handlers (any number, innermost first): applying the
+    handlers — WithErrorHandler on a buffer in a known state consults the
+    handler at once, possibly several times, and may finish levels before any
+    byte is read — is part of [stitch_stack] too ([stacked_spec],
+    Buffer/EHFullStacking.v).  The stream of the nested readers, its final
+    error and EVERY level's list of OnError arguments at the end ([oews]) are
+    exactly [stitch_stack (piece_of b0 0) anss]. *)
+Theorem whole_stack_chunk_stream_is_the_specification : forall ifuel fuel max b0 anss b w out e r',
+  stack_handlers b0 (mkW [] [] []) (map (fun a => mkHst a []) anss) = (b, w) -> w_act w <> [] ->
+  drains (sch_read ifuel fuel max) (sch_init ifuel b w) out e r' ->
+  wf_case b0 anss -> e <> EFuel -> Forall (fun h => ~ In EFuel (oel h)) (lv (sc_w r')) ->
+  (let '(p0, t0) := piece_of b0 0 in stitch_stack p0 t0 anss) = (out, e, oews (sc_w r')).
+Proof. exact whole_stack_chunk_stream. Qed.
+Print Assumptions whole_stack_chunk_stream_is_the_specification.
+
+Theorem whole_stack_reader_stream_is_the_specification : forall fuel b0 anss b w out e r',
+  stack_handlers b0 (mkW [] [] []) (map (fun a => mkHst a []) anss) = (b, w) -> w_act w <> [] ->
+  rdrains (shr_read fuel) (shr_init fuel b w) out e r' ->
+  wf_case b0 anss -> e <> EFuel -> Forall (fun h => ~ In EFuel (oel h)) (lv (sr_w r')) ->
+  (let '(p0, t0) := piece_of b0 0 in stitch_stack p0 t0 anss) = (out, e, oews (sr_w r')).
+Proof. exact whole_stack_reader_stream. Qed.
+Print Assumptions whole_stack_reader_stream_is_the_specification.
 
 (** * Every consumption method.  If the buffer handed to WithErrorHandler and
     every replacement buffer the handler supplies carry the object [C], then a
